@@ -9,6 +9,7 @@ import itertools
 import math
 
 from .. import lattice, pool, rb
+from ..common import nanmax
 
 LEVEL = "exploration"
 U = 2.0 ** -53
@@ -119,7 +120,7 @@ class Units:
             sim2.convert_particle_units(*trip(b))
             sim2.convert_particle_units(*trip(a))
             back = (q.m, q.x, q.vx, q.ax, q.r)
-            if max(ulps(x, y) for x, y in zip(back, orig)) > 8:
+            if not (nanmax(ulps(x, y) for x, y in zip(back, orig)) <= 8):
                 V.append(("units:not-reversible:%s" % dim, "%s -> %s -> %s returns %s instead of %s" % (a, b, a, back, orig)))
             # transitive
             sim.convert_particle_units(*trip(c))
@@ -131,7 +132,7 @@ class Units:
             w.ax, w.ay, w.az = 0.7, -0.3, 0.05
             sim3.convert_particle_units(*trip(c))
             direct = (w.m, w.x, w.vx, w.ax, w.r)
-            if max(ulps(x, y) for x, y in zip(via, direct)) > 16:
+            if not (nanmax(ulps(x, y) for x, y in zip(via, direct)) <= 16):
                 V.append(("units:not-transitive:%s" % dim, "%s -> %s -> %s gives %s, %s -> %s gives %s" % (a, b, c, via, a, c, direct)))
             return V, 1
         raise ValueError(kind)
@@ -204,7 +205,7 @@ class Rot:
                 return V, 1
             w = self.apply(R, a)
             bh = [x / norm(b) * norm(a) for x in b]
-            if max(abs(x - y) for x, y in zip(w, bh)) > 256 * U * norm(a):
+            if not (nanmax(abs(x - y) for x, y in zip(w, bh)) <= 256 * U * norm(a)):
                 V.append(("rotation:from_to:%s:target" % cls, "from_to(%s,%s) maps the first vector to %s instead of %s" % (a, b, w, bh)))
             return V, 1
         if kind == "axis":
@@ -213,7 +214,7 @@ class Rot:
             if not self.check_rotation(R, V, "rotation:angle_axis", "angle_axis(%r, %s)" % (ang, ax)):
                 return V, 1
             w = self.apply(R, ax)
-            if max(abs(x - y) for x, y in zip(w, ax)) > 64 * U * norm(ax):
+            if not (nanmax(abs(x - y) for x, y in zip(w, ax)) <= 64 * U * norm(ax)):
                 V.append(("rotation:angle_axis:axis-moves", "rotation about %s by %r moves its own axis to %s" % (ax, ang, w)))
             # Rodrigues on a probe
             p = (0.3, -1.2, 2.5)
@@ -222,17 +223,17 @@ class Rot:
             kdp = sum(x * y for x, y in zip(k, p))
             want = [p[i] * math.cos(ang) + kxp[i] * math.sin(ang) + k[i] * kdp * (1 - math.cos(ang)) for i in range(3)]
             got = self.apply(R, p)
-            if max(abs(x - y) for x, y in zip(got, want)) > 256 * U * norm(p):
+            if not (nanmax(abs(x - y) for x, y in zip(got, want)) <= 256 * U * norm(p)):
                 V.append(("rotation:angle_axis:rodrigues", "angle_axis(%r,%s) maps %s to %s, Rodrigues' formula gives %s" % (ang, ax, p, got, want)))
             # inverse and composition laws
             Ri = R.inverse()
             back = self.apply(Ri, got)
-            if max(abs(x - y) for x, y in zip(back, p)) > 256 * U * norm(p):
+            if not (nanmax(abs(x - y) for x, y in zip(back, p)) <= 256 * U * norm(p)):
                 V.append(("rotation:inverse", "R^-1 R v != v for angle_axis(%r,%s)" % (ang, ax)))
             R2 = R * R
             twice = self.apply(R2, p)
             seq = self.apply(R, got)
-            if max(abs(x - y) for x, y in zip(twice, seq)) > 256 * U * norm(p):
+            if not (nanmax(abs(x - y) for x, y in zip(twice, seq)) <= 256 * U * norm(p)):
                 V.append(("rotation:composition", "(R*R) v != R (R v) for angle_axis(%r,%s)" % (ang, ax)))
             return V, 1
         if kind == "orbit":
@@ -244,18 +245,18 @@ class Rot:
             want = (math.cos(Om) * math.cos(om) - math.sin(Om) * math.sin(om) * math.cos(inc),
                     math.sin(Om) * math.cos(om) + math.cos(Om) * math.sin(om) * math.cos(inc), math.sin(om) * math.sin(inc))
             got = self.apply(R, (1.0, 0.0, 0.0))
-            if max(abs(x - y) for x, y in zip(got, want)) > 256 * U:
+            if not (nanmax(abs(x - y) for x, y in zip(got, want)) <= 256 * U):
                 V.append(("rotation:orbit:pericentre", "orbit(Omega=%r,inc=%r,omega=%r) maps x to %s, expected %s" % (Om, inc, om, got, want)))
             zw = (math.sin(Om) * math.sin(inc), -math.cos(Om) * math.sin(inc), math.cos(inc))
             gz = self.apply(R, (0.0, 0.0, 1.0))
-            if max(abs(x - y) for x, y in zip(gz, zw)) > 256 * U:
+            if not (nanmax(abs(x - y) for x, y in zip(gz, zw)) <= 256 * U):
                 V.append(("rotation:orbit:normal", "orbit(Omega=%r,inc=%r,omega=%r) maps z to %s, expected %s" % (Om, inc, om, gz, zw)))
             # to_orbital(init_orbit) reproduces the same rotation
             O2, i2, o2 = R.orbital()
             R2 = Rotation.orbit(Omega=O2, inc=i2, omega=o2)
             for p in ((1.0, 0.0, 0.0), (0.0, 0.0, 1.0), (0.3, -1.2, 2.5)):
                 a, b = self.apply(R, p), self.apply(R2, p)
-                if max(abs(x - y) for x, y in zip(a, b)) > 1e-7 * norm(p):
+                if not (nanmax(abs(x - y) for x, y in zip(a, b)) <= 1e-7 * norm(p)):
                     V.append(("rotation:to_orbital", "orbit(%r,%r,%r).orbital() = (%r,%r,%r) describes a different rotation (v=%s: %s vs %s)" % (Om, inc, om, O2, i2, o2, p, a, b)))
                     break
             return V, 1
@@ -311,12 +312,43 @@ class Frames:
         rebound = self.rebound
         rb.quiet()
         V = []
-        tag = "%s order=%d %s" % (sysname, order, op)
+        tag = "%s order=%s %s" % (sysname, order, op)
         sim = self.base(sysname)
         n = sim.N
         # variation: every particle gets a mass and coordinate variation
         var = [[1e-3 * (i + 1) if i > 0 else 0.0, 0.3 - 0.1 * i, 0.2 * i, -0.1, 0.05 * i, -0.2, 0.1 * i - 0.1] for i in range(n)]
         d2 = [[0.0, 0.01 * i, -0.02, 0.005 * i, 0.0, 0.01, -0.003 * i] for i in range(n)]
+        if order == "tp":
+            # variation of a single massless test particle (the last one): a frame shift defined by the massive bodies leaves it alone
+            sim.particles[n - 1].m = 0.0
+            var = [[0.0] * 7 for i in range(n - 1)] + [[0.0] + var[n - 1][1:]]
+            vt = sim.add_variation(testparticle=n - 1)
+            p = vt.particles[0]
+            p.x, p.y, p.z, p.vx, p.vy, p.vz = var[n - 1][1:]
+            before = self.get(sim, n)
+            (sim.move_to_com if op == "com" else sim.move_to_hel)()
+            after = self.get(sim, n)
+
+            def shifted_tp(lam):
+                s = self.base(sysname, lam, var, None)
+                s.particles[n - 1].m = 0.0
+                (s.move_to_com if op == "com" else s.move_to_hel)()
+                return self.get(s, n)
+            eps = 1e-4
+            a, b = shifted_tp(eps), shifted_tp(-eps)
+            D1 = [(a[n - 1][k] - b[n - 1][k]) / (2 * eps) for k in range(7)]
+            p = vt.particles[0]
+            got = [p.m, p.x, p.y, p.z, p.vx, p.vy, p.vz]
+            for k in range(1, 7):
+                if not (abs(got[k] - D1[k]) <= 1e-7 * (1 + abs(D1[k]))):
+                    V.append(("frame:%s:variation-testparticle" % op, "test-particle variation component %d is %r after the shift, the derivative of the shifted system is %r [%s]" % (k, got[k], D1[k], tag)))
+                    break
+            for i in range(n):
+                for k in range(1, 7):
+                    if abs((after[i][k] - after[0][k]) - (before[i][k] - before[0][k])) > 64 * U * max(abs(v) for r_ in before for v in r_[1:]):
+                        V.append(("frame:%s:relative" % op, "relative coordinate %d of particle %d changed by the frame shift [%s]" % (k, i, tag)))
+                        return V
+            return V
         if order >= 1:
             v1 = sim.add_variation()
             for i in range(n):
@@ -338,7 +370,7 @@ class Frames:
         # relative coordinates unchanged
         for i in range(1, n):
             for k in range(1, 7):
-                if abs((after[i][k] - after[0][k]) - (before[i][k] - before[0][k])) > 64 * U * scale:
+                if not (abs((after[i][k] - after[0][k]) - (before[i][k] - before[0][k])) <= 64 * U * scale):
                     V.append(("frame:%s:relative" % op, "relative coordinate %d of particle %d changed by the frame shift [%s]" % (k, i, tag)))
                     return V
         # the reference point is at rest at the origin
@@ -346,7 +378,7 @@ class Frames:
             M = sum(a[0] for a in after)
             for k in range(1, 7):
                 c = sum(a[0] * a[k] for a in after) / M
-                if abs(c) > 256 * U * scale:
+                if not (abs(c) <= 256 * U * scale):
                     V.append(("frame:com:origin", "centre of mass component %d is %.3g after move_to_com [%s]" % (k, c, tag)))
                     return V
         else:
@@ -374,7 +406,7 @@ class Frames:
             got = [[getattr(v1.particles[i], a) for a in ("m", "x", "y", "z", "vx", "vy", "vz")] for i in range(n)]
             for i in range(n):
                 for k in range(7):
-                    if abs(got[i][k] - D1[i][k]) > 1e-7 * (1 + abs(D1[i][k])):
+                    if not (abs(got[i][k] - D1[i][k]) <= 1e-7 * (1 + abs(D1[i][k]))):
                         V.append(("frame:%s:variation-1st" % op, "first-order variational particle %d component %d is %r after the shift, the derivative of the shifted system is %r [%s]" % (i, k, got[i][k], D1[i][k], tag)))
                         return V
             if order == 2:
@@ -386,7 +418,7 @@ class Frames:
                 got2 = [[getattr(v2.particles[i], a) for a in ("m", "x", "y", "z", "vx", "vy", "vz")] for i in range(n)]
                 for i in range(n):
                     for k in range(7):
-                        if abs(got2[i][k] - D2[i][k]) > 2e-5 * (1 + abs(D2[i][k])):
+                        if not (abs(got2[i][k] - D2[i][k]) <= 2e-5 * (1 + abs(D2[i][k]))):
                             V.append(("frame:%s:variation-2nd" % op, "second-order variational particle %d component %d is %r after the shift, the second derivative of the shifted system is %r [%s]" % (i, k, got2[i][k], D2[i][k], tag)))
                             return V
         return V
@@ -422,6 +454,21 @@ class Arith:
             C = A.copy()
             C *= s
             want = [[r[0]] + [v * s for v in r[1:]] for r in a]
+        elif op == "multiply":
+            # the two-factor map: positions by s[0], velocities by s[1]; variational particles are scaled with the real ones
+            sp, sv = s
+            C = A.copy()
+            vv = C.add_variation()
+            for i in range(n):
+                q = vv.particles[i]
+                q.x, q.y, q.z, q.vx, q.vy, q.vz = 0.1 * (i + 1), -0.2, 0.05 * i, 0.3, -0.1 * i, 0.07 + i
+            vb = [[vv.particles[i].m, vv.particles[i].x, vv.particles[i].y, vv.particles[i].z, vv.particles[i].vx, vv.particles[i].vy, vv.particles[i].vz] for i in range(n)]
+            C.multiply(sp, sv)
+            want = [[r[0]] + [v * sp for v in r[1:4]] + [v * sv for v in r[4:]] for r in a]
+            wantv = [[r[0]] + [v * sp for v in r[1:4]] + [v * sv for v in r[4:]] for r in vb]
+            gotv = [[vv.particles[i].m, vv.particles[i].x, vv.particles[i].y, vv.particles[i].z, vv.particles[i].vx, vv.particles[i].vy, vv.particles[i].vz] for i in range(n)]
+            if gotv != wantv:
+                V.append(("arithmetic:multiply:variational", "multiply(%r, %r): variational particles are %s, expected %s" % (sp, sv, gotv, wantv)))
         elif op == "add":
             C = A + B
             want = [[ra[0]] + [x + y for x, y in zip(ra[1:], rb_[1:])] for ra, rb_ in zip(a, b)]
@@ -448,11 +495,11 @@ class Arith:
             E1 = C.energy()
             L1 = C.angular_momentum()
             d1 = [math.dist(c[i][1:4], c[j][1:4]) for i in range(n) for j in range(i)]
-            if abs(E1 - E0) > 1e-13 * abs(E0):
+            if not (abs(E1 - E0) <= 1e-13 * abs(E0)):
                 V.append(("rotate:energy", "energy %r -> %r under a rotation by %r" % (E0, E1, s)))
-            if abs(norm(L1) - norm(L0)) > 1e-13 * norm(L0):
+            if not (abs(norm(L1) - norm(L0)) <= 1e-13 * norm(L0)):
                 V.append(("rotate:angular-momentum", "|L| %r -> %r under a rotation by %r" % (norm(L0), norm(L1), s)))
-            if max(abs(x - y) for x, y in zip(d0, d1)) > 1e-13 * max(d0):
+            if not (nanmax(abs(x - y) for x, y in zip(d0, d1)) <= 1e-13 * max(d0)):
                 V.append(("rotate:distances", "pair distances change under a rotation by %r" % s))
             return V
         c = F.get(C, n)
@@ -553,7 +600,7 @@ def run(ctx):
         nrot += k
         for sig, what in V:
             ctx.violation(sig, what, {"kind": "rot", "task": list(t)})
-    ft = [(s, o, op) for s in ("S3", "S4G") for o in (0, 1, 2) for op in ("com", "hel")]
+    ft = [(s, o, op) for s in ("S3", "S4G") for o in (0, 1, 2, "tp") for op in ("com", "hel")]
     fres = pool.run_tasks(Frames(rebound), ft, timeout=120, chunk=1)
     for t, r in zip(ft, fres):
         if r[0] != "ok":
@@ -561,7 +608,7 @@ def run(ctx):
             continue
         for sig, what in r[1]:
             ctx.violation(sig, what, {"kind": "frame", "task": list(t)})
-    at = [(op, s) for op in ("mul", "rmul", "div", "imul") for s in (2.0, -1.0, 0.0 if False else 0.5, 3.0, 1e-3, -7.25)] + [(op, 0) for op in ("add", "sub", "iadd", "isub")] + [("rotate", s) for s in (0.3, 1.0, math.pi, -2.0)]
+    at = [("multiply", sc) for sc in ((2.0, 3.0), (1.0, -1.0), (0.5, 2.0), (-1.0, 1.0), (1e-3, 7.25))] + [(op, s) for op in ("mul", "rmul", "div", "imul") for s in (2.0, -1.0, 0.0 if False else 0.5, 3.0, 1e-3, -7.25)] + [(op, 0) for op in ("add", "sub", "iadd", "isub")] + [("rotate", s) for s in (0.3, 1.0, math.pi, -2.0)]
     ares = pool.run_tasks(Arith(rebound), at, timeout=60, chunk=1)
     for t, r in zip(at, ares):
         if r[0] != "ok":
@@ -572,7 +619,7 @@ def run(ctx):
     cov = {
         "evaluations": len(ut) + len(rt) + len(ft) + len(at), "distinct_nontrivial": len(Gs) + nrot + len(ft) + len(at),
         "rule": "all %d unit triples (names taken from the package, values from an independent IAU/CODATA/JPL table); all conversion chains A->B->C per dimension; from_to on all ordered pairs of the 26 lattice directions plus scaled, +-1ulp and generic (anti)parallel pairs; "
-                "angle_axis on directions x 9 angles; orbit on a 9x8x9 angle lattice; to_new_axes; frame shifts {S3,S4G} x variational order {0,1,2} x {com,hel}; simulation arithmetic" % len(Gs),
+                "angle_axis on directions x 9 angles; orbit on a 9x8x9 angle lattice; to_new_axes; frame shifts {S3,S4G} x variational order {0,1,2, single test particle} x {com,hel}; simulation arithmetic incl. multiply(s_pos, s_vel) with unequal factors and variational particles" % len(Gs),
         "samples": [list(ut[0]), list(rt[0]), list(ft[0])], "unit_triples": len(Gs), "rotation_cases": len(rt), "exhaustive": True,
     }
     return ctx.finish(LEVEL, cov, assumptions=[
